@@ -151,6 +151,38 @@ fn plan_dump(intrp: &Interpreter) -> String {
   format!("(plan {})", out.join(" "))
 }
 
+fn step_b(src: &str, k: u64) -> (String, String, String, String) {
+  let mut b = Interpreter::new(0);
+  let rb = eval(&mut b, src);
+  let b0 = dump_symbols(&b);
+  let r = match catch_unwind(AssertUnwindSafe(|| b.step(0, k))) {
+    Ok(Ok(v)) => canon(&v), Ok(Err(e)) => errs(&e), Err(_) => "(panic step)".to_string() };
+  let bk = dump_symbols(&b);
+  (rb, b0, r, bk)
+}
+
+fn step_b_child(src: &str, k: u64) -> Option<(String, String, String, String)> {
+  use std::process::{Command, Stdio};
+  let exe = std::env::current_exe().ok()?;
+  let mut child = Command::new(exe).arg("stepb").stdin(Stdio::piped()).stdout(Stdio::piped()).stderr(Stdio::null()).spawn().ok()?;
+  let req = serde_json::json!({"id": "b", "src": src, "k": k}).to_string();
+  child.stdin.take()?.write_all(format!("{}\n", req).as_bytes()).ok()?;
+  let out = child.wait_with_output().ok()?;
+  let txt = String::from_utf8_lossy(&out.stdout).to_string();
+  for line in txt.lines() {
+    if let Some(rest) = line.strip_prefix("b\t") {
+      let parts: Vec<&str> = rest.split('\u{1}').collect();
+      if parts.len() == 4 { return Some((parts[0].to_string(), parts[1].to_string(), parts[2].to_string(), parts[3].to_string())); }
+    }
+  }
+  None
+}
+
+fn mode_stepb(j: &J) -> String {
+  let (rb, b0, r, bk) = step_b(j["src"].as_str().unwrap_or(""), j["k"].as_u64().unwrap_or(1));
+  format!("{}\u{1}{}\u{1}{}\u{1}{}", rb, b0, r, bk)
+}
+
 fn mode_step(j: &J) -> String {
   let src = j["src"].as_str().unwrap_or("");
   let k = j["k"].as_u64().unwrap_or(1);
@@ -164,13 +196,11 @@ fn mode_step(j: &J) -> String {
       Ok(Ok(v)) => canon(&v), Ok(Err(e)) => errs(&e), Err(_) => "(panic step)".to_string() };
     singles.push(format!("(st {} {})", r, dump_symbols(&a)));
   }
-  // interpreter B: interpret, then one request for k steps
-  let mut b = Interpreter::new(0);
-  let rb = eval(&mut b, src);
-  let b0 = dump_symbols(&b);
-  let r = match catch_unwind(AssertUnwindSafe(|| b.step(0, k))) {
-    Ok(Ok(v)) => canon(&v), Ok(Err(e)) => errs(&e), Err(_) => "(panic step)".to_string() };
-  let bk = dump_symbols(&b);
+  // interpreter B: interpret, then one request for k steps.  With "xproc" B runs in a separate OS process
+  // (a child `mvh stepb`), so that process-wide state (hash seeds, allocator, statics) differs as well.
+  let (rb, b0, r, bk) = if j.get("xproc").is_some() {
+    match step_b_child(src, k) { Some(t) => t, None => ("(childfail)".to_string(), "(syms)".to_string(), "(childfail)".to_string(), "(syms)".to_string()) }
+  } else { step_b(src, k) };
   let want_plan = j.get("plan").is_some();
   format!("(stepobs {} {} (singles {}) {} {} (batch {} {}) {})", ra, s0, singles.join(" "), rb, b0, r, bk, if want_plan { plan_dump(&a) } else { "(plan)".to_string() })
 }
@@ -324,6 +354,7 @@ fn main() {
       "session" => mode_session(&j),
       "multi" => mode_multi(&j),
       "step" => mode_step(&j),
+      "stepb" => mode_stepb(&j),
       "bytecode" => mode_bytecode(&j),
       "loader" => mode_loader(&j),
       "fsm" => mode_fsm::mode_fsm(&j),
